@@ -7,9 +7,9 @@ META = {
             "text": "Exploration: thousands of random histories (edits, reverts, rule edits, goal builds, cleans, tampering, deletions of ruler state) drive the real build(); after every successful build each in-scope target is compared byte-for-byte with an independent from-scratch evaluation. Held-on-what-was-observed, not a proof.", "note": HIST_NOTE + "; clock model A (distinct mtimes)"},
     "C02": {"engine": "hist", "technique": "runtime monitor: command-execution log vs the harness's own record of earlier successful executions and a pre-build cache audit",
             "text": "Exploration: every build in random histories is checked for at-most-once execution, for 'must not run' obligations derived from the harness's own record and the cache contents before the build, and for no-op rebuilds touching nothing outside the ruler directory.", "note": HIST_NOTE},
-    "C07": {"engine": "hist", "technique": "runtime monitor: audit of every cache entry with an independent SHA-256/base-62 after every invocation",
-            "text": "Exploration: after every build/clean of random histories (tampering, failing commands, deletions) every cache entry is re-hashed with an independent hasher and compared with its name.", "note": HIST_NOTE},
-    "C08": {"engine": "hist", "technique": "runtime monitor: content-set containment across each invocation plus online check of every ruler-issued rename/create destination",
+    "C07": {"engine": "hist", "technique": "runtime monitor: audit of every cache entry with an independent SHA-256/base-62 after every invocation of random histories, after the final invocation of scenarios under explored schedules, and on the disk at every kill point of interrupted invocations",
+            "text": "Exploration: after every build/clean of random histories (tampering, failing commands, deletions), after scenarios run under a seeded scheduler, and at every crash point of C11's enumeration, every cache entry is re-hashed with an independent hasher and compared with its name.", "note": HIST_NOTE},
+    "C08": {"engine": "hist", "technique": "runtime monitor: content-set containment across each invocation plus online check of every ruler-issued rename/create destination; also under explored schedules and at every kill point of interrupted invocations",
             "text": "Exploration: for every invocation the set of byte strings at ever-declared target paths and in the cache before must be contained in the set after; every rename issued by ruler itself is checked online not to land on different bytes.", "note": HIST_NOTE},
     "C09": {"engine": "hist", "technique": "runtime monitor: online path check of every mutating System call issued by ruler, and before/after comparison of out-of-scope files",
             "text": "Exploration: goal-restricted builds and cleans over random graphs with decoy files; each mutating call ruler issues is checked against the model's scope, and out-of-scope files are compared (bytes, mtime, exec).", "note": HIST_NOTE},
@@ -17,7 +17,7 @@ META = {
             "text": "Exploration: build/clean/build sequences inside random histories on the in-memory System, and the same check with the built binary, shell commands and the real file system (listing, bytes, permission bits, status lines); thorough adds an informational valgrind memcheck stage on the real binary.", "note": HIST_NOTE + "; one known finding is listed in known_findings.json (permission of byte-identical twins)"},
     "C12": {"engine": "sort", "technique": "differential runtime check of the real sorter against an independent set-based reference; exhaustive up to 4 rules, random up to 40",
             "text": "Exploration with an exhaustive core: every directed graph on <=4 named rules (x every goal, single and two-target rules) plus random larger graphs is sorted by the real code and judged by the reference; order-independence by re-running with shuffled rules.", "note": "trusted base: the reference in harness/drivers/sortd.rs; inputs have parser-canonical list order"},
-    "C20": {"engine": "hist", "technique": "runtime monitor: recorded Printer calls vs the System-call log of the same build",
+    "C20": {"engine": "hist", "technique": "runtime monitor: recorded Printer calls vs the System-call log of the same build, in random histories and under explored schedules",
             "text": "Exploration: in every build of random histories (serial and random schedules) each banner is compared with what the event log says happened to that target.", "note": HIST_NOTE},
 }
 
@@ -27,7 +27,7 @@ META.update({
             "text": "Exploration over schedules: the real build() runs on the in-memory System while a seeded scheduler (random walk / PCT / serial+preemptions) chooses the interleaving at every channel operation, thread start/finish and System call; monitors inside the System check readiness at command start and every ticket sent. Replayable by the choice list.", "note": SCHED_NOTE},
     "C04": {"engine": "sched", "technique": "runtime monitor: verdict/error list vs the model's failing set, online 'cancelled rule must not run', independent rules correct; across schedules and follow-up histories",
             "text": "Exploration over failure placements x schedules x follow-up histories, judged against the reference model's failing set.", "note": SCHED_NOTE},
-    "C05": {"engine": "sched", "technique": "runtime monitor: logical deadlock detection by the scheduler (no runnable thread), panic capture at thread/call boundaries, internal channel errors",
+    "C05": {"engine": "sched", "technique": "runtime monitor: logical deadlock detection by the scheduler (no runnable thread), bounded progress in scheduler steps, panic capture at thread/call boundaries, internal channel errors",
             "text": "Exploration over graphs x failure placements x schedules for build and clean; a hang is decided logically, never by wall clock.", "note": SCHED_NOTE},
     "C06": {"engine": "sched", "technique": "runtime monitor: confluence - same scenario under many schedules must give identical verdict and workspace bytes",
             "text": "Exploration: each scenario's final build is run under 30 (300 thorough) schedules from one snapshot, biased to states where threads meet in the cache (cleaned byte-identical twins); outcomes compared.  Corroborated on the real binary and file system under strace with a delay injected on every rename-family system call.", "note": SCHED_NOTE},
@@ -44,11 +44,11 @@ META.update({
 
 PURE_NOTE = "trusted base: the reference written in the driver; inputs are generated, not enumerated"
 META.update({
-    "C13": {"engine": "ident", "technique": "differential runtime check: identity equality vs canonical-form equality on generated near-miss pairs, also through the real parser",
+    "C13": {"engine": "ident", "technique": "differential runtime check: identity equality vs canonical-form equality on generated near-miss pairs, also through the real parser and the sorter; exhaustive pairwise distinctness over a universe of 93 312 small rules",
             "text": "Exploration over adversarial near-miss pairs of rules.", "note": PURE_NOTE},
     "C14": {"engine": "parse", "technique": "differential runtime check of the real parser against a reference reading of the format, under catch_unwind",
             "text": "Exploration: rendered rule sets, corruptions and soups go through the real parser and a separately written reference; results and error (kind, file, line) must match; panics are violations.  Thorough repeats a sample under Miri.", "note": PURE_NOTE},
-    "C15": {"engine": "hash", "technique": "differential runtime check: ruler's hashes and text codec vs Python hashlib and independent base-62 implementations",
+    "C15": {"engine": "hash", "technique": "differential runtime check: ruler's hashes and text codec vs Python hashlib and independent base-62 implementations; `ruler hash` of the built binary on real files and directory trees",
             "text": "Exploration over byte strings (all lengths around the read buffer, read through short-read handles), 256-bit values, candidate strings and directory trees; exported cases are re-checked with hashlib; thorough repeats the codec part under Miri.", "note": "trusted base: Python hashlib; independent base-62 in Python and Rust"},
     "C16": {"engine": "codec", "technique": "runtime round-trip and damage injection on ruler's own state-file writers/readers; independent bincode layout reader",
             "text": "Exploration over generated state files and systematic damage (all prefixes, all single bit flips of small images, random bytes); a process abort is a violation; thorough repeats a sample under Miri.", "note": PURE_NOTE},
